@@ -1,7 +1,12 @@
 import Stbem.Props.Formulas
 import Stbem.Props.C15
+import Stbem.Lemmas.InitPotMain
+import Stbem.Lemmas.InitPotDuffyId
+import Stbem.Lemmas.InitPotSwap
+import Stbem.Lemmas.InitPotIntegral
 import Mathlib.Tactic.Ring
 import Mathlib.Tactic.LinearCombination
+import Mathlib.Tactic.IntervalCases
 
 /-!
 # C08 — initial-potential load vector (geometry and algebra of `InitialOperator.linform`)
@@ -21,9 +26,28 @@ import Mathlib.Tactic.LinearCombination
 * the two branches of the time-integrated kernel (`a = 0` / `a ≠ 0`) of the *generated* `ip_tik`.
 
 The exactness of the rules on polynomial kernels (hence additivity under splitting for them) is C15
-(`duffyTouch3_exact`, `product3_exact`), the tiling of the domain by the cells is C16; the tie to the real
-`linform` is the polynomial-kernel run of `harness/checks/C08.py`.  The `1e-5` accuracy for the true kernel
-`E₁` is search-only (claim partial).
+(`duffyTouch3_exact`, `product3_exact`), the tiling of the domain by the cells is C16.
+
+Second part (namespace `Stbem.InitPot`): theorems about the EXECUTABLE MODEL of `InitialOperator.linform`
+(`Stbem.Model.InitialPotential`, tied to `src/initial_potential.py` by the exact correspondence of
+`harness/checks/C08.py`: real `linform` on `Q` numbers vs `ip lin`, load and per-cell contributions textually):
+
+* `linform_linear`: the result (load, per-cell list, or the assertion that fails) is linear in `u0`, all inputs;
+* `linform_additive_time`: splitting the time interval at `m ≠ 0` splits load and per-cell contributions — an
+  identity of the model for EVERY kernel stand-in (the time-integrated kernels telescope);
+* `duffyId3_exact`: `DuffySchemeIdentical3D(ProductScheme3D(r), False)` is exact for total degree `≤ n − 2`
+  (new; C15 had the touching and the tensor rule only); `apply3_duffTouch_swap`: the touching rule is symmetric
+  under `x ↔ z`;
+* `linform_eq_integral_poly`: for every mesh `dom` satisfying the invariant of C16 (in particular every mesh
+  reachable from `UnitSquare()` / `LShape()`, `linform_eq_integral_unit/_lshape`), every leaf with a side on the
+  boundary and every dyadic piece of that side in either orientation: if `u0(x)·k(|x−y|²)` is a polynomial of total
+  degree `≤ n − 2` (`n` = exactness of the 1-D rule) and `FPI_INV = 1/(4π)`, the model returns the exact integral
+  over domain × segment (`boxInt`, identified with Mathlib's iterated interval integral by `boxInt_eq_integral`),
+  and every cell contributes its own exact integral;
+* `linform_additive_space_poly`: under the same hypotheses the load of a segment is the sum of the loads of its
+  two halves (this is NOT an identity of the model for arbitrary stand-ins: the two halves use different meshes).
+
+The `1e-5` accuracy for the true kernel `E₁` is search-only (claim partial).
 -/
 namespace Stbem.C08
 
@@ -96,3 +120,269 @@ example : normSq (sub (affine2 (0, 0) (sub (1, 0) (0, 0)) (sub (0, 1) (0, 0)) (1
   param_identical (0, 0) (1, 0) (0, 1) 1 (by norm_num [dot, sub]) (by norm_num [normSq, dot, sub]) (by norm_num [normSq, dot, sub]) _ _ _
 
 end Stbem.C08
+
+namespace Stbem.InitPot
+open Stbem.Quadtree Stbem.Quad
+
+/-! ## the executable model of `linform` -/
+
+/-- **linearity in `u0`**, for all inputs (rule, kernel stand-in, domain mesh, segment, fuel), error cases
+included: the run with `α u + β v` is the combination of the runs with `u` and with `v` — same assertion if one
+fails, else the combined load and the combined per-cell contributions -/
+theorem linform_linear (C : Ctx) (u v : Rat → Rat → Rat) (α β : Rat) (dom : QT) (fuel : Nat) (s : Seg) :
+    linform (withU0 C fun x y => α * u x y + β * v x y) dom fuel s =
+      (linform (withU0 C u) dom fuel s).bind fun ru =>
+        (linform (withU0 C v) dom fuel s).map (comb α β ru) :=
+  linform_linear' C u v α β dom fuel s
+
+/-- the load alone -/
+theorem linform_linear_load (C : Ctx) (u v : Rat → Rat → Rat) (α β : Rat) (dom : QT) (fuel : Nat) (s : Seg)
+    (lu lv : Rat) (iu iv : List (Nat × Rat)) (hu : linform (withU0 C u) dom fuel s = .ok (lu, iu))
+    (hv : linform (withU0 C v) dom fuel s = .ok (lv, iv)) :
+    ∃ iw, linform (withU0 C fun x y => α * u x y + β * v x y) dom fuel s = .ok (α * lu + β * lv, iw) := by
+  rw [linform_linear, hu, hv]
+  exact ⟨_, rfl⟩
+
+/-- **additivity in time** is an identity of the model for every kernel stand-in `e1` (no law needed), every
+rule, `u0`, mesh and segment: splitting `[a, b]` at `m ≠ 0` splits the load and each per-cell contribution -/
+theorem linform_additive_time (C : Ctx) (dom : QT) (fuel : Nat) (s : Seg) (m : Rat) (hm : m ≠ 0) :
+    linform C dom fuel s =
+      (linform C dom fuel { s with b := m }).bind fun r1 =>
+        (linform C dom fuel { s with a := m }).map (comb 1 1 r1) :=
+  linform_additive_time' C dom fuel s m hm
+
+alias duffyId3_poly_exact := duffyId3_exact
+alias duffTouch_swap_xz := apply3_duffTouch_swap
+alias boxInt_is_integral := boxInt_eq_integral
+alias refineMshBdr_preserves_leafSum := refineMshBdr_sum
+alias cell_contribution_is_integral := cellGeom_spec
+
+/-- exchanging the two directions of the cell parametrisation of a touching / far cell does not change its
+contribution (the touching rule over a tensor rule of ONE 1-D rule is symmetric under `x ↔ z`) -/
+theorem touchVal_swap (C : Ctx) (s : Seg) (e : Elem) (gQ : Rat → Rat → Pt) (gK : Rat → Pt) :
+    touchVal C s e (fun x z => gQ z x) gK = touchVal C s e gQ gK := by
+  unfold touchVal duffTouch
+  rw [apply3_duffTouch_swap C.rule]
+
+/-- **main theorem**: the model's load is the exact integral.  `dom` is any mesh satisfying the invariant of C16,
+`c` a leaf whose side `sd` has no leaf across it, the segment the `k`-th of the `2^j` equal pieces of that side
+(end points `γ(c)`, `γ(d)` in either order, `d − c` = its length); the 1-D rule is exact to degree `n`, the integrand
+`u0(x) · FPI_INV · [E(r²/4b) − E(r²/4a)]`, `r² = |x − y|²`, `y` on the boundary line, is the polynomial `ts` of total
+degree `≤ N ≤ n − 2`, and `FPI_INV = 1/(4π)` (`PolyIntegrand`).  Then `linform` (fuel `j + 1`) returns the sum over
+the leaves of `dom` of the integrals over leaf × segment — the integral over domain × segment — and the per-cell list
+consists of the exact integrals over the cells of the targeted mesh. -/
+theorem linform_eq_integral_poly (C : Ctx) (n N : Nat) (hrule : Exact1 C.rule n) (hN : N + 2 ≤ n)
+    (dom : QT) (hdom : QInv dom) (c : Elem) (hc : c ∈ dom.leaves) (sd : Side)
+    (hB : ∀ nb ∈ dom.leaves, ¬ Adj c sd nb) (j k : Nat) (hk : k < 2 ^ j) (s : Seg)
+    (hends : (s.p0 = pt sd.axis (lineC c sd) (lo c sd + k * (c.size / 2 ^ j)) ∧
+              s.p1 = pt sd.axis (lineC c sd) (lo c sd + (k + 1) * (c.size / 2 ^ j))) ∨
+             (s.p0 = pt sd.axis (lineC c sd) (lo c sd + (k + 1) * (c.size / 2 ^ j)) ∧
+              s.p1 = pt sd.axis (lineC c sd) (lo c sd + k * (c.size / 2 ^ j))))
+    (hlen : s.d - s.c = c.size / 2 ^ j) (ts : List Term) (hd : ∀ t ∈ ts, t.deg ≤ N)
+    (hP : PolyIntegrand C s sd.axis (lineC c sd) ts) :
+    ∃ m', (∃ e, refineMshBdr (j + 1) dom s.p0 s.p1 = .ok (m', e)) ∧
+      linform C dom (j + 1) s =
+        .ok (leafSum (cellInt ts (lo c sd + k * (c.size / 2 ^ j)) (lo c sd + (k + 1) * (c.size / 2 ^ j))) dom,
+          m'.leaves.map fun e' =>
+            (e'.id, cellInt ts (lo c sd + k * (c.size / 2 ^ j)) (lo c sd + (k + 1) * (c.size / 2 ^ j)) e')) :=
+  linform_integral dom hdom c hc sd hB j k hk s hends hlen hP
+    (duffyId3_exact3 hrule hN) (duffyTouch3_exact3 hrule hN) hd
+
+/-- every mesh reachable from `UnitSquare()` by refinements: the load is the integral over `[0,1]² × segment` -/
+theorem linform_eq_integral_unit (C : Ctx) (n N : Nat) (hrule : Exact1 C.rule n) (hN : N + 2 ≤ n)
+    (dom : QT) (hreach : Reach unitSquare dom) (c : Elem) (hc : c ∈ dom.leaves) (sd : Side)
+    (hB : ∀ nb ∈ dom.leaves, ¬ Adj c sd nb) (j k : Nat) (hk : k < 2 ^ j) (s : Seg)
+    (hends : (s.p0 = pt sd.axis (lineC c sd) (lo c sd + k * (c.size / 2 ^ j)) ∧
+              s.p1 = pt sd.axis (lineC c sd) (lo c sd + (k + 1) * (c.size / 2 ^ j))) ∨
+             (s.p0 = pt sd.axis (lineC c sd) (lo c sd + (k + 1) * (c.size / 2 ^ j)) ∧
+              s.p1 = pt sd.axis (lineC c sd) (lo c sd + k * (c.size / 2 ^ j))))
+    (hlen : s.d - s.c = c.size / 2 ^ j) (ts : List Term) (hd : ∀ t ∈ ts, t.deg ≤ N)
+    (hP : PolyIntegrand C s sd.axis (lineC c sd) ts) :
+    ∃ ips, linform C dom (j + 1) s =
+      .ok (boxInt ts 0 1 0 1 (lo c sd + k * (c.size / 2 ^ j)) (lo c sd + (k + 1) * (c.size / 2 ^ j)), ips) := by
+  have hdom := (qt_inv unitSquare unitSquare_inv dom hreach).1
+  obtain ⟨m', -, h⟩ := linform_eq_integral_poly C n N hrule hN dom hdom c hc sd hB j k hk s hends hlen ts hd hP
+  rw [reach_leafSum (cellInt_quadAdd ts _ _) unitSquare_inv hreach, leafSum_unitSquare] at h
+  have hA : ∀ a b, cellInt ts a b (mkRoot 0 0 0 1) = boxInt ts 0 1 0 1 a b := by
+    intro a b; simp [cellInt, mkRoot]
+  rw [hA] at h
+  exact ⟨_, h⟩
+
+/-- every mesh reachable from `LShape()`: the load is the integral over the three unit squares × segment -/
+theorem linform_eq_integral_lshape (C : Ctx) (n N : Nat) (hrule : Exact1 C.rule n) (hN : N + 2 ≤ n)
+    (dom : QT) (hreach : Reach lShape dom) (c : Elem) (hc : c ∈ dom.leaves) (sd : Side)
+    (hB : ∀ nb ∈ dom.leaves, ¬ Adj c sd nb) (j k : Nat) (hk : k < 2 ^ j) (s : Seg)
+    (hends : (s.p0 = pt sd.axis (lineC c sd) (lo c sd + k * (c.size / 2 ^ j)) ∧
+              s.p1 = pt sd.axis (lineC c sd) (lo c sd + (k + 1) * (c.size / 2 ^ j))) ∨
+             (s.p0 = pt sd.axis (lineC c sd) (lo c sd + (k + 1) * (c.size / 2 ^ j)) ∧
+              s.p1 = pt sd.axis (lineC c sd) (lo c sd + k * (c.size / 2 ^ j))))
+    (hlen : s.d - s.c = c.size / 2 ^ j) (ts : List Term) (hd : ∀ t ∈ ts, t.deg ≤ N)
+    (hP : PolyIntegrand C s sd.axis (lineC c sd) ts) :
+    ∃ ips, linform C dom (j + 1) s =
+      .ok (boxInt ts 0 1 (-1) 0 (lo c sd + k * (c.size / 2 ^ j)) (lo c sd + (k + 1) * (c.size / 2 ^ j)) +
+            (boxInt ts 0 1 0 1 (lo c sd + k * (c.size / 2 ^ j)) (lo c sd + (k + 1) * (c.size / 2 ^ j)) +
+             boxInt ts (-1) 0 0 1 (lo c sd + k * (c.size / 2 ^ j)) (lo c sd + (k + 1) * (c.size / 2 ^ j))),
+          ips) := by
+  have hdom := (qt_inv lShape lShape_inv dom hreach).1
+  obtain ⟨m', -, h⟩ := linform_eq_integral_poly C n N hrule hN dom hdom c hc sd hB j k hk s hends hlen ts hd hP
+  rw [reach_leafSum (cellInt_quadAdd ts _ _) lShape_inv hreach, leafSum_lShape] at h
+  have hA : ∀ a b, cellInt ts a b (mkRoot 0 0 (-1) 1) = boxInt ts 0 1 (-1) 0 a b := by
+    intro a b; simp [cellInt, mkRoot]
+  have hB' : ∀ a b, cellInt ts a b (mkRoot 1 0 0 1) = boxInt ts 0 1 0 1 a b := by
+    intro a b; simp [cellInt, mkRoot]
+  have hC : ∀ a b, cellInt ts a b (mkRoot 2 (-1) 0 1) = boxInt ts (-1) 0 0 1 a b := by
+    intro a b; simp [cellInt, mkRoot]
+  rw [hA, hB', hC] at h
+  exact ⟨_, h⟩
+
+theorem leafSum_add (I J : Elem → Rat) (m : QT) :
+    leafSum (fun e => I e + J e) m = leafSum I m + leafSum J m := by
+  unfold leafSum; exact sumR_map_add I J m.leaves
+
+theorem cellInt_split (ts : List Term) (t0 tm t1 : Rat) (e : Elem) :
+    cellInt ts t0 t1 e = cellInt ts t0 tm e + cellInt ts tm t1 e := by
+  unfold cellInt boxInt
+  rw [← sumR_map_add]
+  apply sumR_map_congr
+  intro t _
+  unfold Term.boxInt
+  rw [I1_split t0 tm t1 t.k]; ring
+
+/-- **additivity in space** (polynomial integrands): the load of the `k`-th of the `2^j` pieces of a boundary side
+is the sum of the loads of its two halves (pieces `2k`, `2k+1` of `2^(j+1)`).  The three runs use three different
+domain meshes; the statement follows from `load = integral` and is not an identity of the model for arbitrary
+kernel stand-ins. -/
+theorem linform_additive_space_poly (C : Ctx) (n N : Nat) (hrule : Exact1 C.rule n) (hN : N + 2 ≤ n)
+    (dom : QT) (hdom : QInv dom) (c : Elem) (hc : c ∈ dom.leaves) (sd : Side)
+    (hB : ∀ nb ∈ dom.leaves, ¬ Adj c sd nb) (j k : Nat) (hk : k < 2 ^ j) (s sL sR : Seg)
+    (hends : s.p0 = pt sd.axis (lineC c sd) (lo c sd + k * (c.size / 2 ^ j)) ∧
+             s.p1 = pt sd.axis (lineC c sd) (lo c sd + (k + 1) * (c.size / 2 ^ j)))
+    (hendsL : sL.p0 = pt sd.axis (lineC c sd) (lo c sd + (2 * k : Nat) * (c.size / 2 ^ (j + 1))) ∧
+              sL.p1 = pt sd.axis (lineC c sd) (lo c sd + ((2 * k : Nat) + 1) * (c.size / 2 ^ (j + 1))))
+    (hendsR : sR.p0 = pt sd.axis (lineC c sd) (lo c sd + (2 * k + 1 : Nat) * (c.size / 2 ^ (j + 1))) ∧
+              sR.p1 = pt sd.axis (lineC c sd) (lo c sd + ((2 * k + 1 : Nat) + 1) * (c.size / 2 ^ (j + 1))))
+    (hlen : s.d - s.c = c.size / 2 ^ j) (hlenL : sL.d - sL.c = c.size / 2 ^ (j + 1))
+    (hlenR : sR.d - sR.c = c.size / 2 ^ (j + 1)) (ts : List Term) (hd : ∀ t ∈ ts, t.deg ≤ N)
+    (hP : PolyIntegrand C s sd.axis (lineC c sd) ts) (hPL : PolyIntegrand C sL sd.axis (lineC c sd) ts)
+    (hPR : PolyIntegrand C sR sd.axis (lineC c sd) ts) :
+    ∃ l lL lR ips ipsL ipsR, linform C dom (j + 1) s = .ok (l, ips) ∧
+      linform C dom (j + 2) sL = .ok (lL, ipsL) ∧ linform C dom (j + 2) sR = .ok (lR, ipsR) ∧ l = lL + lR := by
+  obtain ⟨m, -, h⟩ := linform_eq_integral_poly C n N hrule hN dom hdom c hc sd hB j k hk s (Or.inl hends) hlen ts hd hP
+  obtain ⟨mL, -, hL⟩ := linform_eq_integral_poly C n N hrule hN dom hdom c hc sd hB (j + 1) (2 * k)
+    (by rw [pow_succ]; omega) sL (Or.inl hendsL) hlenL ts hd hPL
+  obtain ⟨mR, -, hR⟩ := linform_eq_integral_poly C n N hrule hN dom hdom c hc sd hB (j + 1) (2 * k + 1)
+    (by rw [pow_succ]; omega) sR (Or.inl hendsR) hlenR ts hd hPR
+  refine ⟨_, _, _, _, _, _, h, hL, hR, ?_⟩
+  have hp : (2 : Rat) ^ j ≠ 0 := by positivity
+  have e0 : lo c sd + ((2 * k : Nat) : Rat) * (c.size / 2 ^ (j + 1)) = lo c sd + k * (c.size / 2 ^ j) := by
+    push_cast; rw [pow_succ]; field_simp
+  have e1 : lo c sd + (((2 * k + 1 : Nat) : Rat) + 1) * (c.size / 2 ^ (j + 1)) =
+      lo c sd + (k + 1) * (c.size / 2 ^ j) := by
+    push_cast; rw [pow_succ]; field_simp; ring
+  have em : lo c sd + (((2 * k : Nat) : Rat) + 1) * (c.size / 2 ^ (j + 1)) =
+      lo c sd + ((2 * k + 1 : Nat) : Rat) * (c.size / 2 ^ (j + 1)) := by
+    push_cast; ring
+  rw [e0, em, e1, ← leafSum_add]
+  unfold leafSum
+  apply sumR_map_congr
+  intro e _
+  exact cellInt_split ts _ _ _ e
+
+/-! ## non-vacuity: concrete rules, kernels, segments -/
+
+/-- Boole's rule (closed Newton–Cotes, 5 nodes): exact to degree 5 -/
+def boole : Rule1 := [⟨0, 7 / 90⟩, ⟨1 / 4, 32 / 90⟩, ⟨1 / 2, 12 / 90⟩, ⟨3 / 4, 32 / 90⟩, ⟨1, 7 / 90⟩]
+
+theorem boole_exact : Exact1 boole 5 := by
+  intro k hk
+  interval_cases k <;> simp [mom, apply1, boole] <;> norm_num
+
+def fnsOf (e1 : Rat → Rat) (pi fpiInv : Rat) : Stbem.Formulas.Q.Fns :=
+  { exp := fun _ => 0, sqrt := fun _ => 0, erf := fun _ => 0, erfc := fun _ => 0, ei := fun _ => 0, e1 := e1,
+    pow32 := fun _ => 0, pi := pi, fpiInv := fpiInv, piSqrt := 0, hpiInv := 0 }
+
+/-- Boole's rule, kernel stand-in `E(u) = u`, `π := 1/4` (so `FPI_INV = 1/(4π) = 1`), `u0 = 1` -/
+def ctxB : Ctx := ⟨boole, fnsOf (fun u => u) (1 / 4) 1, fun _ _ => 1⟩
+
+/-- with `a = 0`, `b = 1/4`: the integrand is `|x − y|² = x₁² − 2 x₁ t + t² + x₂²` for `y = (t, 0)` -/
+def tsB : List Term := [⟨1, 2, 0, 0⟩, ⟨-2, 1, 0, 1⟩, ⟨1, 0, 0, 2⟩, ⟨1, 0, 2, 0⟩]
+
+theorem polyB (s : Seg) (ha : s.a = 0) (hb : s.b = 1 / 4) : PolyIntegrand ctxB s true 0 tsB := by
+  refine ⟨by norm_num [ctxB, fnsOf], ?_⟩
+  intro x1 x2 t
+  simp only [ctxB, fnsOf, inlineKernel, ha, hb, dist2, pt, if_true, evalP, tsB, Term.eval, List.map_cons,
+    List.map_nil, sumR_cons, sumR_nil]
+  ring
+
+/-- the second half `[(1/2, 0), (1, 0)]` of the bottom side of the unit square, time interval `[0, 1/4]` -/
+def segB : Seg := ⟨0, 1 / 4, 1 / 2, 1, (1 / 2, 0), (1, 0)⟩
+
+/-- instance of `linform_eq_integral_unit`: the model's load of `segB` is `∫_{[0,1]²} ∫_{1/2}^{1} |x − (t,0)|² dt dx = 1/4` -/
+example : ∃ ips, linform ctxB unitSquare 2 segB = .ok (1 / 4, ips) := by
+  obtain ⟨ips, h⟩ := linform_eq_integral_unit ctxB 5 2 boole_exact (by norm_num) unitSquare Reach.init
+    (mkRoot 0 0 0 1) (by simp [unitSquare]) .bottom (unitSquare_boundary .bottom) 1 1 (by norm_num) segB
+    (Or.inl ⟨by simp [segB, pt, Side.axis, lineC, lo, mkRoot],
+      by simp [segB, pt, Side.axis, lineC, lo, mkRoot]; norm_num⟩)
+    (by simp [segB, mkRoot]; norm_num) tsB (by intro t ht; simp [tsB] at ht; rcases ht with rfl | rfl | rfl | rfl <;> simp [Term.deg])
+    (polyB segB rfl rfl)
+  refine ⟨ips, ?_⟩
+  rw [h]
+  congr 2
+  simp [boxInt, Term.boxInt, I1, tsB, lo, mkRoot]
+  norm_num
+
+/-- instance of `linform_additive_space_poly`: bottom side `[0,1]` = `[0,1/2]` + `[1/2,1]` -/
+example : ∃ l lL lR ips ipsL ipsR,
+    linform ctxB unitSquare 1 ⟨0, 1 / 4, 0, 1, (0, 0), (1, 0)⟩ = .ok (l, ips) ∧
+    linform ctxB unitSquare 2 ⟨0, 1 / 4, 0, 1 / 2, (0, 0), (1 / 2, 0)⟩ = .ok (lL, ipsL) ∧
+    linform ctxB unitSquare 2 segB = .ok (lR, ipsR) ∧ l = lL + lR :=
+  linform_additive_space_poly ctxB 5 2 boole_exact (by norm_num) unitSquare unitSquare_inv (mkRoot 0 0 0 1)
+    (by simp [unitSquare]) .bottom (unitSquare_boundary .bottom) 0 0 (by norm_num) _ _ _
+    ⟨by simp [pt, Side.axis, lineC, lo, mkRoot], by simp [pt, Side.axis, lineC, lo, mkRoot]⟩
+    ⟨by simp [pt, Side.axis, lineC, lo, mkRoot], by simp [pt, Side.axis, lineC, lo, mkRoot]⟩
+    ⟨by simp [segB, pt, Side.axis, lineC, lo, mkRoot], by simp [segB, pt, Side.axis, lineC, lo, mkRoot]; norm_num⟩
+    (by simp [mkRoot]) (by simp [mkRoot]) (by simp [segB, mkRoot]; norm_num) tsB
+    (by intro t ht; simp [tsB] at ht; rcases ht with rfl | rfl | rfl | rfl <;> simp [Term.deg])
+    (polyB _ rfl rfl) (polyB _ rfl rfl) (polyB _ rfl rfl)
+
+/-- Simpson's rule, constant kernel stand-in, `u0 = x + 2y`: the model really runs (kernel evaluation) and
+returns `∫_{[0,1]²} ∫_{1/2}^{1} (x₁ + 2x₂) dt dx = 3/4` with one identical, two touching and one far cell -/
+def ctxS : Ctx := ⟨simpson, fnsOf (fun _ => 1) (1 / 4) 1, fun x y => x + 2 * y⟩
+
+def loadOf (r : Except String (Rat × List (Nat × Rat))) : Option (Rat × List Nat) :=
+  match r with
+  | .ok (l, ips) => some (l, ips.map (·.1))
+  | .error _ => none
+
+theorem linform_run_example : loadOf (linform ctxS unitSquare 2 segB) = some (3 / 4, [1, 2, 3, 4]) := by
+  decide +kernel
+
+/-- an illegal segment (`[1/4, 3/4]` of the bottom side is not a dyadic piece): `assert parent` -/
+theorem linform_run_illegal :
+    linform ctxS unitSquare 6 ⟨0, 1 / 4, 1 / 4, 3 / 4, (1 / 4, 0), (3 / 4, 0)⟩ = .error "assert:parent" := by
+  decide +kernel
+
+/-- the same value from the theorem (Simpson is exact to degree 3, the integrand `x₁ + 2x₂` has degree 1) -/
+example : ∃ ips, linform ctxS unitSquare 2 segB = .ok (3 / 4, ips) := by
+  have hP : PolyIntegrand ctxS segB true 0 [⟨1, 1, 0, 0⟩, ⟨2, 0, 1, 0⟩] := by
+    refine ⟨by norm_num [ctxS, fnsOf], ?_⟩
+    intro x1 x2 t
+    simp only [ctxS, fnsOf, inlineKernel, segB, if_true, evalP, Term.eval, List.map_cons, List.map_nil, sumR_cons,
+      sumR_nil]
+    ring
+  obtain ⟨ips, h⟩ := linform_eq_integral_unit ctxS 3 1 simpson_exact (by norm_num) unitSquare Reach.init
+    (mkRoot 0 0 0 1) (by simp [unitSquare]) .bottom (unitSquare_boundary .bottom) 1 1 (by norm_num) segB
+    (Or.inl ⟨by simp [segB, pt, Side.axis, lineC, lo, mkRoot],
+      by simp [segB, pt, Side.axis, lineC, lo, mkRoot]; norm_num⟩)
+    (by simp [segB, mkRoot]; norm_num) _ (by intro t ht; simp at ht; rcases ht with rfl | rfl <;> simp [Term.deg]) hP
+  refine ⟨ips, ?_⟩
+  rw [h]
+  congr 2
+  simp [boxInt, Term.boxInt, I1, lo, mkRoot]
+  norm_num
+
+/-- instances of `linform_additive_time` and `linform_linear` on the run above (no hypotheses to satisfy beyond `m ≠ 0`) -/
+example := linform_additive_time ctxS unitSquare 2 segB (1 / 8) (by norm_num)
+example := linform_linear ctxS (fun x _ => x) (fun _ y => y) 1 2 unitSquare 2 segB
+
+end Stbem.InitPot
